@@ -116,6 +116,38 @@ fn unswept_spec(ctx: &Ctx, shards: usize) -> SeqSpec {
     }
 }
 
+/// Histories that start with a time-to-live that was shortened (into another expiry shard) and then lengthened or removed:
+/// the clock walks through the first two deadlines with sweeps at every position; the key must survive both.
+fn ttl_chain_spec(ctx: &Ctx, shards: usize, remove: bool) -> SeqSpec {
+    let quick = ctx.quick();
+    let last = if remove { Op::Upsert { k: 1, value: false, w: None, ttl_ms: None, remove_ttl: true } } else { Op::Upsert { k: 1, value: false, w: None, ttl_ms: Some(60_000), remove_ttl: false } };
+    SeqSpec {
+        name: format!("seq/no-spurious-loss/ttl-shortened-then-{}/shards{}", if remove { "removed" } else { "lengthened" }, shards),
+        setup: Setup { weight: 10_000, shards, counters: 2, buffer: 1, weight_fn: WeightFn::Const { c: 30, ttl_extra: 24 }, ..Setup::default() },
+        world: Default::default(),
+        prefix: vec![Op::Put { k: 1, w: Some(30), ttl_ms: Some(5000) }, Op::Upsert { k: 1, value: false, w: None, ttl_ms: Some(2000), remove_ttl: false }, last],
+        alphabet: vec![
+            Op::Advance { ms: 1000 },
+            Op::Advance { ms: 3000 },
+            Op::TickWait,
+            Op::ReadAll { keys: vec![1] },
+            Op::Upsert { k: 1, value: true, w: None, ttl_ms: None, remove_ttl: false },
+            Op::Upsert { k: 1, value: false, w: None, ttl_ms: Some(3000), remove_ttl: false },
+        ],
+        depth: if quick { 6 } else { 9 },
+        allow: Some(Arc::new(|_h, present, a| match a {
+            Op::Upsert { k, value: false, .. } => present.contains(k),
+            _ => true,
+        })),
+        oracle: seq_oracle(),
+        keys: vec![1],
+        canon_sketch: true,
+        ghost_key: Some(ghost_key(false)),
+        max_states: if quick { 80_000 } else { 3_000_000 },
+        time_cap_s: if quick { 10.0 } else { 600.0 },
+    }
+}
+
 // ---------------------------------------------------------------------------------------------- ilv
 /// Thread 0 works on key 1 sequentially (every write awaited); its reads of key 1 must see the latest
 /// accepted value unless the clock may have passed the deadline.
@@ -267,6 +299,12 @@ pub fn def(ctx: &Ctx) -> PropertyDef {
     for shards in [2usize, 4] {
         let name = unswept_spec(ctx, shards).name;
         scenarios.push(seq_scenario(move |c| unswept_spec(c, shards), &name));
+    }
+    for shards in [2usize, 4] {
+        for remove in [false, true] {
+            let name = ttl_chain_spec(ctx, shards, remove).name;
+            scenarios.push(seq_scenario(move |c| ttl_chain_spec(c, shards, remove), &name));
+        }
     }
     for p in crate::harness::ilv::for_tier(ilv_programs(), quick) {
         let three = p.threads.len() >= 3;
